@@ -377,3 +377,220 @@ Proof.
   - apply wsc_check_correct, wsc_check_c1p in H. now apply c1p_check_correct.
   - apply wsc_check_correct, wsc_check_c1p. now apply c1p_check_correct.
 Qed.
+
+(* ------------------------------------------------------------------------------------------------ *)
+(* partitions *)
+Definition SetEq (s t : list N) : Prop := forall x, In x s <-> In x t.
+Definition Disjoint (s t : list N) : Prop := forall x, In x s -> In x t -> False.
+
+Lemma SetEq_refl s : SetEq s s.
+Proof. intros x. reflexivity. Qed.
+Lemma SetEq_sym s t : SetEq s t -> SetEq t s.
+Proof. intros H x. symmetry. apply H. Qed.
+Lemma SetEq_trans s t u : SetEq s t -> SetEq t u -> SetEq s u.
+Proof. intros H1 H2 x. rewrite (H1 x). apply H2. Qed.
+
+Lemma subset_iff s t : subset s t = true <-> incl s t.
+Proof.
+  unfold subset, incl. rewrite forallb_forall. split; intros H x Hx; apply mem_iff; now apply H.
+Qed.
+
+Lemma set_eq_iff s t : set_eq s t = true <-> SetEq s t.
+Proof.
+  unfold set_eq, SetEq. rewrite andb_true_iff, !subset_iff. unfold incl. split.
+  - intros [H1 H2] x. split; auto.
+  - intros H. split; intros x; apply H.
+Qed.
+
+Lemma set_eq_false_iff s t : set_eq s t = false <-> ~ SetEq s t.
+Proof. rewrite <- set_eq_iff. destruct (set_eq s t); split; congruence. Qed.
+
+Lemma meets_iff s t : meets s t = true <-> exists x, In x s /\ In x t.
+Proof.
+  unfold meets. rewrite existsb_exists. split; intros (x & H1 & H2); exists x; (split; [exact H1|]);
+    now apply mem_iff.
+Qed.
+
+Lemma meets_false_iff s t : meets s t = false <-> Disjoint s t.
+Proof.
+  unfold Disjoint. split.
+  - intros H x H1 H2. assert (E : meets s t = true) by (apply meets_iff; eauto). congruence.
+  - intros H. destruct (meets s t) eqn:E; [|reflexivity]. apply meets_iff in E.
+    destruct E as (x & H1 & H2). destruct (H x H1 H2).
+Qed.
+
+Lemma meets_sym s t : meets s t = meets t s.
+Proof.
+  destruct (meets t s) eqn:E.
+  - apply meets_iff in E. apply meets_iff. destruct E as (x & H1 & H2). eauto.
+  - apply meets_false_iff in E. apply meets_false_iff. intros x H1 H2. exact (E x H2 H1).
+Qed.
+
+Lemma to_set_In x l : In x (to_set l) <-> In x l.
+Proof.
+  induction l as [|y t IH]; simpl; [reflexivity|]. destruct (mem y t) eqn:E.
+  - rewrite IH. apply mem_iff in E. split; [auto|]. intros [->|H]; auto.
+  - simpl. rewrite IH. reflexivity.
+Qed.
+
+Lemma to_set_SetEq l : SetEq (to_set l) l.
+Proof. intros x. apply to_set_In. Qed.
+
+Lemma to_set_NoDup l : NoDup (to_set l).
+Proof.
+  induction l as [|y t IH]; simpl; [constructor|]. destruct (mem y t) eqn:E; [exact IH|].
+  constructor; [|exact IH]. rewrite to_set_In. now apply mem_false_iff.
+Qed.
+
+(* any two approval sets are equal or disjoint *)
+Definition PartOK (ballots : list (list N)) : Prop :=
+  forall b1 b2, In b1 ballots -> In b2 ballots -> SetEq b1 b2 \/ Disjoint b1 b2.
+
+(* the relation the parts of a partition witness satisfy pairwise *)
+Definition part_rel (s t : list N) : bool := negb (set_eq s t) && negb (meets s t).
+
+Lemma part_rel_sym s t : part_rel s t = part_rel t s.
+Proof.
+  unfold part_rel. rewrite (meets_sym s t). f_equal. f_equal.
+  destruct (set_eq t s) eqn:E.
+  - apply set_eq_iff. apply set_eq_iff in E. now apply SetEq_sym.
+  - apply set_eq_false_iff. apply set_eq_false_iff in E. intros H. apply E. now apply SetEq_sym.
+Qed.
+
+Lemma pairwise_app_one {T} (r : T -> T -> bool) l a :
+  pairwise r (l ++ [a]) = pairwise r l && forallb (fun s => r s a) l.
+Proof.
+  induction l as [|x t IH]; simpl; [reflexivity|].
+  rewrite IH, forallb_app. simpl. rewrite andb_true_r.
+  destruct (forallb (r x) t), (r x a), (pairwise r t), (forallb (fun s => r s a) t); reflexivity.
+Qed.
+
+Lemma pairwise_in {T} (r : T -> T -> bool) l x y :
+  (forall u v, r u v = r v u) -> pairwise r l = true -> In x l -> In y l -> x = y \/ r x y = true.
+Proof.
+  intros Hsym. induction l as [|z t IH]; simpl; [tauto|].
+  rewrite andb_true_iff, forallb_forall. intros [Hz Ht] [Hx|Hx] [Hy|Hy].
+  - left. congruence.
+  - subst z. right. now apply Hz.
+  - subst z. right. rewrite Hsym. now apply Hz.
+  - now apply IH.
+Qed.
+
+(* Prop reading of the partition checker: parts = the distinct approval sets, pairwise disjoint *)
+Theorem part_check_spec ballots parts :
+  part_check ballots parts = true <->
+  (forall b, In b ballots -> exists s, In s parts /\ SetEq s b) /\
+  (forall s, In s parts -> exists b, In b ballots /\ SetEq s b) /\
+  pairwise part_rel parts = true.
+Proof.
+  unfold part_check. rewrite !andb_true_iff, !forallb_forall. fold part_rel. split.
+  - intros [[H1 H2] H3]. split; [|split]; [| |exact H3].
+    + intros b Hb. specialize (H1 b Hb). apply existsb_exists in H1. destruct H1 as (s & Hs & E).
+      exists s. split; [exact Hs|now apply set_eq_iff].
+    + intros s Hs. specialize (H2 s Hs). apply existsb_exists in H2. destruct H2 as (b & Hb & E).
+      exists b. split; [exact Hb|now apply set_eq_iff].
+  - intros (H1 & H2 & H3). split; [split|exact H3].
+    + intros b Hb. destruct (H1 b Hb) as (s & Hs & E). apply existsb_exists. exists s.
+      split; [exact Hs|now apply set_eq_iff].
+    + intros s Hs. destruct (H2 s Hs) as (b & Hb & E). apply existsb_exists.
+      exists b. split; [exact Hb|now apply set_eq_iff].
+Qed.
+
+(* a partition witness certifies membership in the partition domain *)
+Theorem part_check_sound ballots parts : part_check ballots parts = true -> PartOK ballots.
+Proof.
+  rewrite part_check_spec. intros (H1 & _ & H3) b1 b2 Hb1 Hb2.
+  destruct (H1 b1 Hb1) as (s1 & Hs1 & E1). destruct (H1 b2 Hb2) as (s2 & Hs2 & E2).
+  destruct (pairwise_in part_rel parts s1 s2 part_rel_sym H3 Hs1 Hs2) as [->|R].
+  - left. eapply SetEq_trans; [apply SetEq_sym; exact E1|exact E2].
+  - right. unfold part_rel in R. apply andb_true_iff in R. destruct R as [_ R].
+    apply negb_true_iff, meets_false_iff in R. intros x Hx1 Hx2.
+    apply (R x); [now apply E1|now apply E2].
+Qed.
+
+Lemma part_scan_spec parts a :
+  match part_scan parts a with
+  | Some false => exists s, In s parts /\ set_eq s a = true
+  | Some true => forall s, In s parts -> set_eq s a = false /\ meets a s = false
+  | None => exists s, In s parts /\ set_eq s a = false /\ meets a s = true
+  end.
+Proof.
+  induction parts as [|s rest IH]; simpl.
+  - intros s [].
+  - destruct (set_eq s a) eqn:E1.
+    + exists s. auto.
+    + destruct (meets a s) eqn:E2.
+      * exists s. auto.
+      * destruct (part_scan rest a) as [[|]|].
+        -- intros s' [<-|Hs']; auto.
+        -- destruct IH as (s' & Hs' & E). exists s'. auto.
+        -- destruct IH as (s' & Hs' & E). exists s'. auto.
+Qed.
+
+Lemma part_loop_spec bs : forall done parts,
+  part_check done parts = true ->
+  match part_loop bs parts with
+  | Some parts' => part_check (done ++ bs) parts' = true
+  | None => ~ PartOK (done ++ bs)
+  end.
+Proof.
+  induction bs as [|b bs IH]; intros done parts Hinv; simpl.
+  - now rewrite app_nil_r.
+  - pose proof (part_scan_spec parts (to_set b)) as Hscan.
+    pose proof (to_set_SetEq b) as Hb.
+    apply part_check_spec in Hinv. destruct Hinv as (H1 & H2 & H3).
+    destruct (part_scan parts (to_set b)) as [[|]|].
+    + (* a new part *)
+      specialize (IH (done ++ [b]) (parts ++ [to_set b])). rewrite <- app_assoc in IH. simpl in IH.
+      apply IH. apply part_check_spec. split; [|split].
+      * intros b' Hb'. apply in_app_or in Hb'. destruct Hb' as [Hb'|[<-|[]]].
+        -- destruct (H1 b' Hb') as (s & Hs & E). exists s. split; [apply in_or_app; now left|exact E].
+        -- exists (to_set b). split; [apply in_or_app; right; now left|exact Hb].
+      * intros s Hs. apply in_app_or in Hs. destruct Hs as [Hs|[<-|[]]].
+        -- destruct (H2 s Hs) as (b' & Hb' & E). exists b'. split; [apply in_or_app; now left|exact E].
+        -- exists b. split; [apply in_or_app; right; now left|exact Hb].
+      * rewrite pairwise_app_one, H3. simpl. apply forallb_forall. intros s Hs.
+        destruct (Hscan s Hs) as [E1 E2]. unfold part_rel. now rewrite E1, meets_sym, E2.
+    + (* an approval set seen before *)
+      specialize (IH (done ++ [b]) parts). rewrite <- app_assoc in IH. simpl in IH.
+      apply IH. apply part_check_spec. split; [|split]; [| |exact H3].
+      * intros b' Hb'. apply in_app_or in Hb'. destruct Hb' as [Hb'|[<-|[]]]; [now apply H1|].
+        destruct Hscan as (s & Hs & E). exists s. split; [exact Hs|].
+        apply set_eq_iff in E. eapply SetEq_trans; [exact E|exact Hb].
+      * intros s Hs. destruct (H2 s Hs) as (b' & Hb' & E). exists b'. split; [apply in_or_app; now left|exact E].
+    + (* overlap without equality *)
+      destruct Hscan as (s & Hs & E1 & E2). destruct (H2 s Hs) as (b0 & Hb0 & E0).
+      intros HP. apply set_eq_false_iff in E1. apply meets_iff in E2. destruct E2 as (x & Hx1 & Hx2).
+      destruct (HP b0 b) as [HE|HD].
+      * apply in_or_app. now left.
+      * apply in_or_app. right. now left.
+      * apply E1. eapply SetEq_trans; [exact E0|]. eapply SetEq_trans; [exact HE|now apply SetEq_sym].
+      * apply (HD x); [now apply E0|now apply Hb].
+Qed.
+
+(* is_part returns a list <-> any two approval sets are equal or disjoint; the returned list is then accepted
+   by the partition checker: it consists of the distinct approval sets, each once, pairwise disjoint *)
+Theorem part_witness ballots parts : is_part ballots = Some parts -> part_check ballots parts = true.
+Proof.
+  unfold is_part. intros H. pose proof (part_loop_spec ballots [] [] eq_refl) as L.
+  rewrite H in L. exact L.
+Qed.
+
+Theorem part_correct ballots : (exists parts, is_part ballots = Some parts) <-> PartOK ballots.
+Proof.
+  split.
+  - intros (parts & H). apply (part_check_sound ballots parts), part_witness, H.
+  - intros HP. pose proof (part_loop_spec ballots [] [] eq_refl) as L. unfold is_part.
+    destruct (part_loop ballots []) as [parts|]; [now exists parts|]. now destruct L.
+Qed.
+
+Theorem part_decide_correct ballots : part_decide ballots = true <-> PartOK ballots.
+Proof.
+  unfold part_decide, PartOK. rewrite forallb_forall. split.
+  - intros H b1 b2 H1 H2. specialize (H b1 H1). rewrite forallb_forall in H. specialize (H b2 H2).
+    apply orb_true_iff in H. destruct H as [H|H]; [left; now apply set_eq_iff|].
+    right. now apply meets_false_iff, negb_true_iff.
+  - intros H b1 H1. apply forallb_forall. intros b2 H2. apply orb_true_iff.
+    destruct (H b1 b2 H1 H2) as [E|D]; [left; now apply set_eq_iff|].
+    right. now apply negb_true_iff, meets_false_iff.
+Qed.
